@@ -4,6 +4,7 @@
 import Verif.Model.C08
 import Mathlib.Tactic.Linarith
 import Mathlib.Tactic.Ring
+import Mathlib.Tactic.FieldSimp
 import Mathlib.Algebra.Order.Field.Basic
 import Mathlib.Algebra.Order.Field.Rat
 
@@ -883,5 +884,498 @@ theorem take_drop_eq_filter {β} : ∀ (l : List β) (i0 a b : Nat),
       · have ha' : a - i0 = (a - (i0 + 1)) + 1 := by omega
         rw [ha', List.drop_succ_cons, ih (i0 + 1) a b]
         simp [ha]
+
+/-! ## Editing tracks (deepening round D): interpolate / split / merge / filter -/
+
+/-- strictly increasing scan-line indices -/
+def Inc (tr : Track) : Prop := (timesOf tr).Pairwise (· < ·)
+
+/-- the first sentence of the property for one track -/
+def WellFormed (nLines : Int) (lo hi : Rat) (tr : Track) : Prop :=
+  tr ≠ [] ∧ Inc tr ∧ ∀ p ∈ tr, 0 ≤ p.1 ∧ p.1 < nLines ∧ lo ≤ p.2 ∧ p.2 ≤ hi
+
+theorem foldl_min_le (l : List Int) (a : Int) (h : ∀ x ∈ l, a ≤ x) : l.foldl min a = a := by
+  induction l generalizing a with
+  | nil => rfl
+  | cons b l ih =>
+    have hab : a ≤ b := h b (by simp)
+    rw [List.foldl_cons, min_eq_left hab]
+    exact ih a (fun x hx => h x (by simp [hx]))
+
+theorem foldl_max_inc (l : List Int) (a : Int) (h : (a :: l).Pairwise (· < ·)) :
+    l.foldl max a = (a :: l).getLast (by simp) := by
+  induction l generalizing a with
+  | nil => rfl
+  | cons b l ih =>
+    rw [List.pairwise_cons] at h
+    have hab : a < b := h.1 b (by simp)
+    rw [List.foldl_cons, max_eq_right hab.le, ih b h.2, List.getLast_cons_cons]
+
+theorem interpAt_mem (p : Int × Rat) (rest : Track) (h : Inc (p :: rest)) :
+    ∀ q ∈ p :: rest, interpAt q.1 p rest = q.2 := by
+  induction rest generalizing p with
+  | nil => intro q hq; simp at hq; subst hq; rfl
+  | cons r rs ih =>
+    intro q hq
+    unfold Inc timesOf at h
+    simp only [List.map_cons, List.pairwise_cons] at h
+    rcases List.mem_cons.1 hq with rfl | hq'
+    · have : q.1 < r.1 := h.1 r.1 (by simp)
+      simp only [interpAt, this, if_true, le_refl]
+    · have hge : r.1 ≤ q.1 := by
+        rcases List.mem_cons.1 hq' with rfl | h3
+        · exact le_refl _
+        · exact (h.2.1 q.1 (List.mem_map.2 ⟨q, h3, rfl⟩)).le
+      have : ¬ q.1 < r.1 := by omega
+      simp only [interpAt, this, if_false]
+      exact ih r (by unfold Inc timesOf; simp only [List.map_cons, List.pairwise_cons]; exact h.2) q hq'
+
+theorem interpAt_bounds (lo hi : Rat) (x : Int) (p : Int × Rat) (rest : Track) (h : Inc (p :: rest))
+    (hb : ∀ q ∈ p :: rest, lo ≤ q.2 ∧ q.2 ≤ hi) : lo ≤ interpAt x p rest ∧ interpAt x p rest ≤ hi := by
+  induction rest generalizing p with
+  | nil => exact hb p (by simp)
+  | cons r rs ih =>
+    unfold Inc timesOf at h
+    simp only [List.map_cons, List.pairwise_cons] at h
+    unfold interpAt
+    by_cases h1 : x < r.1
+    · rw [if_pos h1]
+      by_cases h2 : x ≤ p.1
+      · rw [if_pos h2]; exact hb p (by simp)
+      · rw [if_neg h2]
+        have hpr : p.1 < r.1 := h.1 r.1 (by simp)
+        have hp := hb p (by simp)
+        have hr := hb r (by simp)
+        have hd : (0 : Rat) < ((r.1 - p.1 : Int) : Rat) := by exact_mod_cast (by omega : 0 < r.1 - p.1)
+        have hx0 : (0 : Rat) < ((x - p.1 : Int) : Rat) := by exact_mod_cast (by omega : 0 < x - p.1)
+        have hx1 : ((x - p.1 : Int) : Rat) < ((r.1 - p.1 : Int) : Rat) := by exact_mod_cast (by omega : x - p.1 < r.1 - p.1)
+        generalize ((r.1 - p.1 : Int) : Rat) = d at hd hx1
+        generalize ((x - p.1 : Int) : Rat) = e at hx0 hx1
+        have hl0 : 0 < e / d := div_pos hx0 hd
+        have hl1 : e / d < 1 := (div_lt_one hd).2 hx1
+        have e1 : (r.2 - p.2) / d * e + p.2 = (1 - e / d) * p.2 + (e / d) * r.2 := by field_simp; ring
+        rw [e1]
+        generalize e / d = l at hl0 hl1
+        constructor <;> nlinarith [hp.1, hp.2, hr.1, hr.2]
+    · rw [if_neg h1]
+      exact ih r (by unfold Inc timesOf; simp only [List.map_cons, List.pairwise_cons]; exact h.2)
+        (fun q hq => hb q (by simp [hq]))
+
+theorem inc_tail {p : Int × Rat} {rest : Track} (h : Inc (p :: rest)) : Inc rest := by
+  unfold Inc timesOf at *; simp only [List.map_cons, List.pairwise_cons] at h; exact h.2
+
+theorem inc_first_le (p : Int × Rat) (rest : Track) (h : Inc (p :: rest)) : ∀ q ∈ p :: rest, p.1 ≤ q.1 := by
+  intro q hq
+  unfold Inc timesOf at h; simp only [List.map_cons, List.pairwise_cons] at h
+  rcases List.mem_cons.1 hq with rfl | hq
+  · exact le_refl _
+  · exact (h.1 q.1 (List.mem_map.2 ⟨q, hq, rfl⟩)).le
+
+theorem inc_le_last (p : Int × Rat) (rest : Track) (h : Inc (p :: rest)) :
+    ∀ q ∈ p :: rest, q.1 ≤ ((p :: rest).getLast (by simp)).1 := by
+  induction rest generalizing p with
+  | nil => intro q hq; simp at hq; subst hq; simp
+  | cons r rs ih =>
+    intro q hq
+    rw [List.getLast_cons_cons]
+    rcases List.mem_cons.1 hq with rfl | hq
+    · have h1 := inc_first_le q (r :: rs) h r (by simp)
+      have h2 := ih r (inc_tail h) r (by simp)
+      omega
+    · exact ih r (inc_tail h) q hq
+
+theorem interpolate_eq (p : Int × Rat) (rest : Track) (h : Inc (p :: rest)) :
+    interpolate (p :: rest) =
+      (List.range (((p :: rest).getLast (by simp)).1 - p.1 + 1).toNat).map
+        fun (k : Nat) => (p.1 + (k : Int), interpAt (p.1 + (k : Int)) p rest) := by
+  have hmin : (timesOf rest).foldl min p.1 = p.1 :=
+    foldl_min_le _ _ (fun x hx => by
+      obtain ⟨q, hq, rfl⟩ := List.mem_map.1 hx
+      exact inc_first_le p rest h q (by simp [hq]))
+  have hmax : (timesOf rest).foldl max p.1 = ((p :: rest).getLast (by simp)).1 := by
+    rw [foldl_max_inc _ _ (by simpa [Inc, timesOf] using h)]
+    have : p.1 :: timesOf rest = (p :: rest).map (·.1) := by simp [timesOf]
+    simp only [this, List.getLast_map]
+  simp only [interpolate, hmin, hmax]
+
+/-- number of lines an interpolated track covers -/
+theorem interp_len_pos (p : Int × Rat) (rest : Track) (h : Inc (p :: rest)) :
+    0 < (((p :: rest).getLast (by simp)).1 - p.1 + 1).toNat := by
+  have := inc_le_last p rest h p (by simp)
+  omega
+
+theorem interpolate_times_lem (tr : Track) (h : Inc tr) (f l : Int) (hf : (timesOf tr).head? = some f)
+    (hl : (timesOf tr).getLast? = some l) :
+    timesOf (interpolate tr) = (List.range (l - f + 1).toNat).map fun (k : Nat) => f + (k : Int) := by
+  cases tr with
+  | nil => simp [timesOf] at hf
+  | cons p rest =>
+    have e1 : f = p.1 := by simpa [timesOf] using hf.symm
+    have e2 : l = ((p :: rest).getLast (by simp)).1 := by
+      unfold timesOf at hl
+      rw [List.getLast?_map, List.getLast?_eq_some_getLast (by simp)] at hl
+      simpa using hl.symm
+    rw [interpolate_eq p rest h, e1, e2]
+    simp [timesOf, List.map_map, Function.comp_def]
+
+theorem interpolate_inc (tr : Track) (h : Inc tr) : Inc (interpolate tr) := by
+  cases tr with
+  | nil => simp [interpolate, Inc, timesOf]
+  | cons p rest =>
+    unfold Inc
+    rw [interpolate_eq p rest h]
+    simp only [timesOf, List.map_map, Function.comp_def]
+    rw [List.pairwise_map]
+    exact List.Pairwise.imp (fun {a b} hab => by omega) List.pairwise_lt_range
+
+theorem interpolate_keeps (tr : Track) (h : Inc tr) : ∀ q ∈ tr, q ∈ interpolate tr := by
+  cases tr with
+  | nil => intro q hq; simp at hq
+  | cons p rest =>
+    intro q hq
+    rw [interpolate_eq p rest h, List.mem_map]
+    have h1 := inc_first_le p rest h q hq
+    have h2 := inc_le_last p rest h q hq
+    refine ⟨(q.1 - p.1).toNat, List.mem_range.2 (by omega), ?_⟩
+    have e : p.1 + ((q.1 - p.1).toNat : Int) = q.1 := by omega
+    rw [e, interpAt_mem p rest h q hq]
+
+theorem interpolate_wf (n : Int) (lo hi : Rat) (tr : Track) (h : WellFormed n lo hi tr) :
+    WellFormed n lo hi (interpolate tr) := by
+  obtain ⟨hne, hinc, hb⟩ := h
+  cases tr with
+  | nil => exact absurd rfl hne
+  | cons p rest =>
+    refine ⟨?_, interpolate_inc _ hinc, ?_⟩
+    · rw [interpolate_eq p rest hinc]
+      have := interp_len_pos p rest hinc
+      intro hc
+      have := congrArg List.length hc
+      simp at this
+      omega
+    · intro q hq
+      rw [interpolate_eq p rest hinc, List.mem_map] at hq
+      obtain ⟨k, hk, rfl⟩ := hq
+      have hk' := List.mem_range.1 hk
+      have hlast := hb _ (List.getLast_mem (l := p :: rest) (by simp))
+      have hfirst := hb p (by simp)
+      have hib := interpAt_bounds lo hi (p.1 + (k : Int)) p rest hinc (fun q hq => (hb q hq).2.2)
+      refine ⟨by simp only; omega, by simp only; omega, hib.1, hib.2⟩
+
+theorem interpolate_idem (tr : Track) (h : Inc tr) : interpolate (interpolate tr) = interpolate tr := by
+  cases tr with
+  | nil => rfl
+  | cons p rest =>
+    have hI := interpolate_eq p rest h
+    have hn := interp_len_pos p rest h
+    generalize hN : (((p :: rest).getLast (by simp)).1 - p.1 + 1).toNat = N at hI hn
+    have hincI := interpolate_inc _ h
+    generalize hIdef : interpolate (p :: rest) = I at *
+    cases I with
+    | nil =>
+      have := congrArg List.length hI
+      simp at this; omega
+    | cons p' rest' =>
+      have hlen : (p' :: rest').length = N := by rw [hI]; simp
+      have hget : ∀ k (hk : k < (p' :: rest').length), (p' :: rest')[k] = (p.1 + (k : Int), interpAt (p.1 + (k : Int)) p rest) := by
+        intro k hk
+        simp only [hI, List.getElem_map, List.getElem_range]
+      have hp' : p'.1 = p.1 := by
+        have := hget 0 (by simp)
+        simp at this
+        rw [this]
+      have hlast : ((p' :: rest').getLast (by simp)).1 = p.1 + ((N - 1 : Nat) : Int) := by
+        rw [List.getLast_eq_getElem, hget]
+        simp only [hlen]
+      rw [interpolate_eq p' rest' hincI, hlast, hp']
+      have hN' : (p.1 + ((N - 1 : Nat) : Int) - p.1 + 1).toNat = N := by omega
+      rw [hN']
+      apply List.ext_getElem
+      · simp [hlen]
+      · intro k h1 h2
+        simp only [List.getElem_map, List.getElem_range]
+        have hk : k < (p' :: rest').length := h2
+        have hm := interpAt_mem p' rest' hincI ((p' :: rest')[k]) (List.getElem_mem hk)
+        rw [hget k hk] at hm ⊢
+        simp only at hm
+        rw [hm]
+
+/-! ### split / merge / filter -/
+
+theorem inc_sublist {s tr : Track} (hs : s.Sublist tr) (h : Inc tr) : Inc s := by
+  unfold Inc timesOf at *
+  exact List.Pairwise.sublist (List.Sublist.map _ hs) h
+
+theorem wf_sublist {n : Int} {lo hi : Rat} {s tr : Track} (hs : s.Sublist tr) (hne : s ≠ [])
+    (h : WellFormed n lo hi tr) : WellFormed n lo hi s :=
+  ⟨hne, inc_sublist hs h.2.1, fun p hp => h.2.2 p (hs.subset hp)⟩
+
+theorem splitAt_ok (tr : Track) (node : Int) (a b : Track) (h : splitAt tr node = .ok (a, b)) :
+    a ++ b = tr ∧ a ≠ [] ∧ b ≠ [] ∧ (a.length : Int) = min (max node 0) (tr.length : Int) := by
+  unfold splitAt at h
+  simp only at h
+  split at h
+  · cases h
+  · rename_i hc
+    simp only [Bool.or_eq_true, not_or, List.isEmpty_iff] at hc
+    injection h with h
+    injection h with h1 h2
+    subst h1; subst h2
+    refine ⟨List.take_append_drop _ _, hc.1, hc.2, ?_⟩
+    rw [List.length_take]
+    omega
+
+theorem splitAt_refused (tr : Track) (node : Int) :
+    (∃ e, splitAt tr node = .error e) ↔ (node ≤ 0 ∨ (tr.length : Int) ≤ node) := by
+  unfold splitAt
+  simp only
+  constructor
+  · intro ⟨e, h⟩
+    split at h
+    · rename_i hc
+      simp only [Bool.or_eq_true, List.isEmpty_iff, List.take_eq_nil_iff, List.drop_eq_nil_iff] at hc
+      rcases hc with (hc | hc) | hc
+      · omega
+      · subst hc; simp; omega
+      · omega
+    · cases h
+  · intro hn
+    refine ⟨"ValueError", ?_⟩
+    rw [if_pos]
+    simp only [Bool.or_eq_true, List.isEmpty_iff, List.take_eq_nil_iff, List.drop_eq_nil_iff]
+    omega
+
+theorem mem_eraseIdx_flatten_perm (g : List Track) (i : Nat) (tr : Track) (h : g[i]? = some tr) :
+    g.flatten.Perm (tr ++ (g.eraseIdx i).flatten) := by
+  induction g generalizing i with
+  | nil => simp at h
+  | cons x xs ih =>
+    cases i with
+    | zero => simp at h; subst h; simp
+    | succ k =>
+      simp only [List.getElem?_cons_succ] at h
+      simp only [List.eraseIdx_cons_succ, List.flatten_cons]
+      have := ih k h
+      refine (List.Perm.append_left x this).trans ?_
+      rw [← List.append_assoc, ← List.append_assoc]
+      exact List.Perm.append_right _ List.perm_append_comm
+
+theorem splitTrack_ok (g : List Track) (i : Nat) (node minLen : Int) (g' : List Track)
+    (h : splitTrack g i node minLen = .ok g') :
+    ∃ tr a b, g[i]? = some tr ∧ splitAt tr node = .ok (a, b) ∧
+      g' = g.eraseIdx i ++ [a, b].filter fun t => decide (minLen ≤ (t.length : Int)) := by
+  unfold splitTrack at h
+  split at h
+  · cases h
+  · rename_i tr htr
+    split at h
+    · cases h
+    · rename_i a b hab
+      injection h with h
+      exact ⟨tr, a, b, htr, hab, h.symm⟩
+
+theorem take_times_le (a : Track) (ha : Inc a) (sn : Nat) (ps : Int × Rat) (hs : a[sn]? = some ps) :
+    ∀ x ∈ a.take (sn + 1), x.1 ≤ ps.1 := by
+  intro x hx
+  obtain ⟨k, hk, rfl⟩ := List.mem_iff_getElem.1 hx
+  rw [List.length_take] at hk
+  obtain ⟨hsn, rfl⟩ := List.getElem?_eq_some_iff.1 hs
+  rw [List.getElem_take]
+  by_cases hks : k = sn
+  · subst hks; exact le_refl _
+  · have := (List.pairwise_iff_getElem.1 ha) k sn (by simp [timesOf]; omega) (by simp [timesOf]; omega) (by omega)
+    simp only [timesOf, List.getElem_map] at this
+    exact this.le
+
+theorem drop_times_ge (b : Track) (hb : Inc b) (en : Nat) (pe : Int × Rat) (he : b[en]? = some pe) :
+    ∀ y ∈ b.drop en, pe.1 ≤ y.1 := by
+  intro y hy
+  obtain ⟨k, hk, rfl⟩ := List.mem_iff_getElem.1 hy
+  rw [List.length_drop] at hk
+  obtain ⟨hen, rfl⟩ := List.getElem?_eq_some_iff.1 he
+  rw [List.getElem_drop]
+  by_cases hks : k = 0
+  · subst hks; simp
+  · have := (List.pairwise_iff_getElem.1 hb) en (en + k) (by simp [timesOf]; omega) (by simp [timesOf]; omega) (by omega)
+    simp only [timesOf, List.getElem_map] at this
+    exact this.le
+
+theorem merge_inc (a b : Track) (ha : Inc a) (hb : Inc b) (sn en : Nat) (ps pe : Int × Rat)
+    (hs : a[sn]? = some ps) (he : b[en]? = some pe) (hlt : ps.1 < pe.1) :
+    Inc (a.take (sn + 1) ++ b.drop en) := by
+  have h1 := take_times_le a ha sn ps hs
+  have h2 := drop_times_ge b hb en pe he
+  unfold Inc timesOf
+  rw [List.map_append, List.pairwise_append]
+  refine ⟨inc_sublist (List.take_sublist _ _) ha, inc_sublist (List.drop_sublist _ _) hb, ?_⟩
+  intro x hx y hy
+  obtain ⟨p, hp, rfl⟩ := List.mem_map.1 hx
+  obtain ⟨q, hq, rfl⟩ := List.mem_map.1 hy
+  have := h1 p hp
+  have := h2 q hq
+  omega
+
+theorem merge_wf {n : Int} {lo hi : Rat} (a b : Track) (ha : WellFormed n lo hi a) (hb : WellFormed n lo hi b)
+    (sn en : Nat) (ps pe : Int × Rat) (hs : a[sn]? = some ps) (he : b[en]? = some pe) (hlt : ps.1 < pe.1) :
+    WellFormed n lo hi (a.take (sn + 1) ++ b.drop en) := by
+  refine ⟨?_, merge_inc a b ha.2.1 hb.2.1 sn en ps pe hs he hlt, ?_⟩
+  · intro hc
+    have h0 := (List.append_eq_nil_iff.1 hc).1
+    rw [List.take_eq_nil_iff] at h0
+    rcases h0 with h0 | h0
+    · omega
+    · exact ha.1 h0
+  · intro p hp
+    rcases List.mem_append.1 hp with hp | hp
+    · exact ha.2.2 p (List.mem_of_mem_take hp)
+    · exact hb.2.2 p (List.mem_of_mem_drop hp)
+
+/-- the two chosen nodes become neighbours -/
+theorem merge_shape (a b : Track) (sn en : Nat) (ps pe : Int × Rat) (hs : a[sn]? = some ps) (he : b[en]? = some pe) :
+    a.take (sn + 1) ++ b.drop en = a.take sn ++ ps :: pe :: b.drop (en + 1) := by
+  obtain ⟨hsn, rfl⟩ := List.getElem?_eq_some_iff.1 hs
+  obtain ⟨hen, rfl⟩ := List.getElem?_eq_some_iff.1 he
+  rw [List.take_succ_eq_append_getElem hsn, List.drop_eq_getElem_cons hen]
+  simp only [List.append_assoc, List.singleton_append]
+
+theorem splitTrack_wf {n : Int} {lo hi : Rat} (g : List Track) (i : Nat) (node minLen : Int) (g' : List Track)
+    (hg : ∀ t ∈ g, WellFormed n lo hi t) (h : splitTrack g i node minLen = .ok g') :
+    ∀ t ∈ g', WellFormed n lo hi t := by
+  obtain ⟨tr, a, b, htr, hab, rfl⟩ := splitTrack_ok g i node minLen g' h
+  obtain ⟨happ, ha, hb, _⟩ := splitAt_ok tr node a b hab
+  have hwf := hg tr (List.mem_of_getElem? htr)
+  intro t ht
+  rcases List.mem_append.1 ht with ht | ht
+  · exact hg t (List.mem_of_mem_eraseIdx ht)
+  · have := (List.mem_filter.1 ht).1
+    simp only [List.mem_cons, List.not_mem_nil, or_false] at this
+    rcases this with rfl | rfl
+    · exact wf_sublist (happ ▸ List.sublist_append_left t b) ha hwf
+    · exact wf_sublist (happ ▸ List.sublist_append_right a t) hb hwf
+
+/-- with `min_length ≤ 1` a split keeps every point of the group (as a multiset) -/
+theorem splitTrack_perm (g : List Track) (i : Nat) (node minLen : Int) (g' : List Track) (hm : minLen ≤ 1)
+    (h : splitTrack g i node minLen = .ok g') : g'.flatten.Perm g.flatten := by
+  obtain ⟨tr, a, b, htr, hab, rfl⟩ := splitTrack_ok g i node minLen g' h
+  obtain ⟨happ, ha, hb, _⟩ := splitAt_ok tr node a b hab
+  have la : 0 < a.length := List.length_pos_iff.2 ha
+  have lb : 0 < b.length := List.length_pos_iff.2 hb
+  have hf : ([a, b].filter fun t => decide (minLen ≤ (t.length : Int))) = [a, b] := by
+    simp only [List.filter_cons, List.filter_nil]
+    rw [if_pos (by simp; omega), if_pos (by simp; omega)]
+  rw [hf]
+  refine List.Perm.trans ?_ (mem_eraseIdx_flatten_perm g i tr htr).symm
+  rw [List.flatten_append]
+  simp only [List.flatten_cons, List.flatten_nil, List.append_nil, happ]
+  exact List.perm_append_comm
+
+theorem mergeTracks_ok (g : List Track) (i sn j en : Nat) (g' : List Track) (h : mergeTracks g i sn j en = .ok g') :
+    ∃ a b ps pe, g[i]? = some a ∧ g[j]? = some b ∧ a[sn]? = some ps ∧ b[en]? = some pe ∧
+      ((ps.1 < pe.1 ∧ g' = (if i = j then g.set i (a.take (sn + 1) ++ b.drop en)
+          else (g.set i (a.take (sn + 1) ++ b.drop en)).eraseIdx j)) ∨
+       (pe.1 < ps.1 ∧ g' = (if j = i then g.set j (b.take (en + 1) ++ a.drop sn)
+          else (g.set j (b.take (en + 1) ++ a.drop sn)).eraseIdx i))) := by
+  unfold mergeTracks at h
+  split at h
+  · rename_i a b ha hb
+    split at h
+    · rename_i ps pe hs he
+      refine ⟨a, b, ps, pe, ha, hb, hs, he, ?_⟩
+      by_cases h1 : ps.1 = pe.1
+      · rw [if_pos h1] at h; cases h
+      · rw [if_neg h1] at h
+        by_cases h2 : ps.1 > pe.1
+        · rw [if_pos h2] at h
+          injection h with h
+          exact Or.inr ⟨h2, h.symm⟩
+        · rw [if_neg h2] at h
+          injection h with h
+          exact Or.inl ⟨by omega, h.symm⟩
+    · cases h
+  · cases h
+
+theorem mem_set_erase {α} (g : List α) (i j : Nat) (m t : α) (c : Prop) [Decidable c]
+    (h : t ∈ (if c then g.set i m else (g.set i m).eraseIdx j)) : t ∈ g ∨ t = m := by
+  split at h
+  · exact List.mem_or_eq_of_mem_set h
+  · exact List.mem_or_eq_of_mem_set (List.mem_of_mem_eraseIdx h)
+
+theorem mergeTracks_wf {n : Int} {lo hi : Rat} (g : List Track) (i sn j en : Nat) (g' : List Track)
+    (hg : ∀ t ∈ g, WellFormed n lo hi t) (h : mergeTracks g i sn j en = .ok g') :
+    ∀ t ∈ g', WellFormed n lo hi t := by
+  obtain ⟨a, b, ps, pe, ha, hb, hs, he, hcase⟩ := mergeTracks_ok g i sn j en g' h
+  have wa := hg a (List.mem_of_getElem? ha)
+  have wb := hg b (List.mem_of_getElem? hb)
+  intro t ht
+  rcases hcase with ⟨hlt, rfl⟩ | ⟨hlt, rfl⟩
+  · rcases mem_set_erase _ _ _ _ _ _ ht with h1 | rfl
+    · exact hg t h1
+    · exact merge_wf a b wa wb sn en ps pe hs he hlt
+  · rcases mem_set_erase _ _ _ _ _ _ ht with h1 | rfl
+    · exact hg t h1
+    · exact merge_wf b a wb wa en sn pe ps he hs hlt
+
+theorem keepTrack_iff (minLen : Int) (minDur lt : Rat) (tr : Track) (f l : Int)
+    (hf : (timesOf tr).head? = some f) (hl : (timesOf tr).getLast? = some l) :
+    keepTrack minLen minDur lt tr = true ↔ minLen ≤ (tr.length : Int) ∧ minDur ≤ lt * ((l - f : Int) : Rat) := by
+  unfold keepTrack
+  have hd : duration lt (timesOf tr) = some (lt * ((l - f : Int) : Rat)) := by
+    unfold duration seconds
+    rw [List.getLast?_map, List.head?_map, hf, hl]
+    simp only [Option.map_some]
+    congr 1
+    push_cast; ring
+  rw [hd]
+  simp only [Bool.and_eq_true, decide_eq_true_eq]
+
+theorem filterTracks_mem (minLen : Int) (minDur : Rat) (g : List (Rat × Track)) (x : Rat × Track) :
+    x ∈ filterTracks minLen minDur g ↔ x ∈ g ∧ keepTrack minLen minDur x.1 x.2 = true := by
+  unfold filterTracks; rw [List.mem_filter]
+
+theorem filterTracks_sublist (minLen : Int) (minDur : Rat) (g : List (Rat × Track)) :
+    (filterTracks minLen minDur g).Sublist g := List.filter_sublist
+
+theorem filterTracks_idem (minLen : Int) (minDur : Rat) (g : List (Rat × Track)) :
+    filterTracks minLen minDur (filterTracks minLen minDur g) = filterTracks minLen minDur g := by
+  unfold filterTracks; rw [List.filter_filter]; simp
+
+theorem applyOp_wf {n : Int} {lo hi : Rat} (lt : Rat) (g : List Track) (op : EditOp) (g' : List Track)
+    (hg : ∀ t ∈ g, WellFormed n lo hi t) (h : applyOp lt g op = .ok g') : ∀ t ∈ g', WellFormed n lo hi t := by
+  cases op with
+  | interpolate skip =>
+    simp only [applyOp] at h
+    injection h with h
+    subst h
+    intro t ht
+    obtain ⟨x, hx, rfl⟩ := List.mem_map.1 ht
+    have hxg : x.1 ∈ g := by
+      obtain ⟨h1, h2⟩ := List.mem_zipIdx' hx
+      rw [h2]; exact List.getElem_mem h1
+    split
+    · exact hg _ hxg
+    · exact interpolate_wf n lo hi _ (hg _ hxg)
+  | split i node minLen => exact splitTrack_wf g i node minLen g' hg h
+  | merge i sn j en => exact mergeTracks_wf g i sn j en g' hg h
+  | filter minLen minDur =>
+    simp only [applyOp] at h
+    injection h with h
+    subst h
+    intro t ht
+    obtain ⟨x, hx, rfl⟩ := List.mem_map.1 ht
+    have := (filterTracks_sublist minLen minDur _).subset hx
+    obtain ⟨t', ht', rfl⟩ := List.mem_map.1 this
+    exact hg t' ht'
+
+theorem runProgram_wf {n : Int} {lo hi : Rat} (lt : Rat) (ops : List EditOp) (g : List Track)
+    (hg : ∀ t ∈ g, WellFormed n lo hi t) : ∀ t ∈ runProgram lt ops g, WellFormed n lo hi t := by
+  induction ops generalizing g with
+  | nil => exact hg
+  | cons op ops ih =>
+    unfold runProgram
+    split
+    · rename_i g' h
+      exact ih g' (applyOp_wf lt g op g' hg h)
+    · exact ih g hg
+
 
 end Verif.C08
